@@ -316,6 +316,7 @@ impl Highlighter {
             }],
         )?;
         assert_ne!(layers.len(), 0);
+        let mut layers = layers.into_iter();
         let mut result = HighlightIter {
             source,
             encoding,
@@ -325,10 +326,16 @@ impl Highlighter {
             cancellation_flag,
             highlighter: self,
             iter_count: 0,
-            layers,
+            layers: Vec::from_iter(layers.next()),
             next_event: None,
             last_highlight_range: None,
         };
+        // `sort_layers` only moves the first layer, so the layers of combined injections must
+        // be inserted in order (they are not necessarily created in the order of their first
+        // highlight boundary).
+        for layer in layers {
+            result.insert_layer(layer);
+        }
         result.sort_layers();
         Ok(result)
     }
